@@ -178,6 +178,14 @@ package didsubject
 //@   loop @IsCommitted invariant committed == true
 //@   call (MethodManager).IsCommitted #1 requires [asked-of-the-changes-own-method] arg(0) == r.MethodManagers[change.Method()] && same(arg(2), change)
 //@   call deleteDocumentVersion #1 requires [versions-deleted-only-for-an-uncommitted-set] committed == false && arg(0) == tx && same(arg(1), change)
-//@   call (*gorm.DB).Delete #1 requires [records-deleted-after-the-set-was-judged] typeOf(arg(1)) == *orm.DIDChangeLog && arg(0) == ret(call (*gorm.DB).Where #2) && arg(call (*gorm.DB).Where #2, 0) == tx
-//@        && arg(call (*gorm.DB).Where #2, 1) == any("transaction_id = ?") && len(arg(call (*gorm.DB).Where #2, 2)) == 1 && arg(call (*gorm.DB).Where #2, 2)[0] == any(transactionID)
+//@   call (*gorm.DB).Delete #1 requires [records-deleted-after-the-set-was-judged] typeOf(arg(1)) == *orm.DIDChangeLog && arg(0) == ret(call (*gorm.DB).Where #3) && arg(call (*gorm.DB).Where #3, 0) == tx
+//@        && arg(call (*gorm.DB).Where #3, 1) == any("transaction_id = ?") && len(arg(call (*gorm.DB).Where #3, 2)) == 1 && arg(call (*gorm.DB).Where #3, 2)[0] == any(transactionID)
+// The selection is per document version (updated_at), verdict and clean-up are per transaction: a transaction is judged -
+// and its records are deleted - only when ALL of its change records were selected (counted by transaction id in this
+// database transaction); one whose versions lie on both sides of the time limit is left for a later sweep.
+//@   call (*gorm.DB).Count #1 requires [the-whole-transaction-is-counted] arg(0) == ret(call (*gorm.DB).Where #2) && arg(call (*gorm.DB).Where #2, 1) == any("transaction_id = ?")
+//@        && len(arg(call (*gorm.DB).Where #2, 2)) == 1 && arg(call (*gorm.DB).Where #2, 2)[0] == any(transactionID) && arg(1) == &total
+//@        && arg(call (*gorm.DB).Where #2, 0) == ret(call (*gorm.DB).Model #1) && arg(call (*gorm.DB).Model #1, 0) == tx && typeOf(arg(call (*gorm.DB).Model #1, 1)) == *orm.DIDChangeLog
+//@   call (MethodManager).IsCommitted #1 requires [only-complete-transactions-are-judged] total == int64(len(versionChanges))
+//@   call (*gorm.DB).Delete #1 requires [only-complete-transactions-are-cleaned-up] total == int64(len(versionChanges))
 //@   ensures [an-error-aborts-the-sweep] (did(call (MethodManager).IsCommitted #1) && !isNilIface(ret(call (MethodManager).IsCommitted #1).1)) ==> !isNilIface(result)
